@@ -6,6 +6,7 @@ package fosite
 import (
 	"context"
 	"encoding/json"
+	"sync"
 	"time"
 
 	"github.com/dgraph-io/ristretto"
@@ -34,6 +35,12 @@ type DefaultJWKSFetcherStrategy struct {
 	ttl              time.Duration
 	clientSourceFunc func(ctx context.Context) *retryablehttp.Client
 }
+
+// sharedDefaultJWKSFetcherStrategy returns the DefaultJWKSFetcherStrategy used by every Config that does not
+// set one. It is created once, so that Config getters never write to the Config they are called on.
+var sharedDefaultJWKSFetcherStrategy = sync.OnceValue(func() JWKSFetcherStrategy {
+	return NewDefaultJWKSFetcherStrategy()
+})
 
 // NewDefaultJWKSFetcherStrategy returns a new instance of the DefaultJWKSFetcherStrategy.
 func NewDefaultJWKSFetcherStrategy(opts ...func(*DefaultJWKSFetcherStrategy)) JWKSFetcherStrategy {
